@@ -1412,6 +1412,14 @@ func Run(c *hx.Ctx) error {
 	if err := runM(c, root, r.Fork(), mcases); err != nil {
 		return err
 	}
+	// schema of a measurement under prunes (schema.go)
+	ccases := n / 3
+	if v := c.Arg("ccases", ""); v != "" {
+		ccases, _ = strconv.Atoi(v)
+	}
+	if err := runC(c, r.Fork(), ccases); err != nil {
+		return err
+	}
 	c.Stats.Notes = append(c.Stats.Notes,
 		"time.Now is not injectable: every case keeps a 2 s margin around end+duration and is redone if it took longer than 1.2 s; the exact boundary instant is covered by the regenerated expression and expired_iff only",
 		"the write-side window test (checkDBRP / routeAndMapOriginRows) is regenerated and proved about, not driven dynamically")
